@@ -225,4 +225,217 @@ theorem hex_column_inverse (row : Bytes) (h : row.length ≤ 16) :
     parseValues 16 0 (plainValues (padRow row) 0).toList = row := 
   parse_plain row _ 16 0 h
 
+/-! ### little-endian codec facts -/
+
+theorem toLE_length (n v : Nat) : (toLE n v).length = n := by
+  induction n generalizing v with
+  | zero => rfl
+  | succ n ih => simp [toLE, ih]
+
+theorem pow8 (n : Nat) : 2 ^ (8 * n) = 256 ^ n := by
+  rw [Nat.pow_mul]
+
+theorem fromLE_toLE (n v : Nat) (h : v < 256 ^ n) : fromLE (toLE n v) = v := by
+  induction n generalizing v with
+  | zero => simp at h; simp [toLE, fromLE, h]
+  | succ n ih =>
+    simp only [toLE, fromLE]
+    have h1 : v / 256 < 256 ^ n := by
+      rw [Nat.div_lt_iff_lt_mul (by decide)]; rw [Nat.pow_succ] at h; exact h
+    rw [ih _ h1]
+    have : (UInt8.ofNat (v % 256)).toNat = v % 256 := by
+      simp [UInt8.toNat_ofNat']
+    rw [this]; omega
+
+theorem fromLE_lt (bs : Bytes) : fromLE bs < 256 ^ bs.length := by
+  induction bs with
+  | nil => simp [fromLE]
+  | cons b r ih =>
+    simp only [fromLE, List.length_cons, Nat.pow_succ]
+    have := b.toNat_lt
+    omega
+
+theorem toLE_fromLE (bs : Bytes) : toLE bs.length (fromLE bs) = bs := by
+  induction bs with
+  | nil => simp [toLE]
+  | cons b r ih =>
+    simp only [List.length_cons, toLE, fromLE]
+    have hb := b.toNat_lt
+    have h1 : (b.toNat + 256 * fromLE r) % 256 = b.toNat := by omega
+    have h2 : (b.toNat + 256 * fromLE r) / 256 = fromLE r := by omega
+    rw [h1, h2, ih, UInt8.ofNat_toNat]
+
+/-- byte order view -/
+def view (e : Endian) (bs : Bytes) : Bytes := match e with | .little => bs | .big => bs.reverse
+
+theorem view_view (e : Endian) (bs : Bytes) : view e (view e bs) = bs := by
+  cases e <;> simp [view]
+
+theorem view_length (e : Endian) (bs : Bytes) : (view e bs).length = bs.length := by
+  cases e <;> simp [view]
+
+theorem decodeNat_eq (e : Endian) (bs : Bytes) : decodeNat e bs = fromLE (view e bs) := by
+  cases e <;> rfl
+
+theorem decodeNat_lt (e : Endian) (bs : Bytes) : decodeNat e bs < 2 ^ (8 * bs.length) := by
+  rw [decodeNat_eq, pow8, ← view_length e bs]; exact fromLE_lt _
+
+theorem encodeInt_of (e : Endian) (n : Nat) (s : Bool) (v : Int) (u : Nat) (hf : fits n s v = true)
+    (hu : (v % ((2 ^ (8 * n) : Nat) : Int)).toNat = u) : encodeInt e n s v = some (view e (toLE n u)) := by
+  simp only [encodeInt, hf, if_true, hu]
+  cases e <;> rfl
+
+theorem emod_nonneg (v : Int) (P : Nat) (h0 : 0 ≤ v) (h1 : v < P) : (v % (P : Int)).toNat = v.toNat := by
+  rw [Int.emod_eq_of_lt h0 h1]
+
+theorem emod_neg (v : Int) (P : Nat) (h0 : v < 0) (h1 : -(P : Int) ≤ v) :
+    (v % (P : Int)).toNat = (v + P).toNat := by
+  rw [← Int.add_emod_right, Int.emod_eq_of_lt (by omega) (by omega)]
+
+/-- every value that fits is some natural `u < 2^(8n)` read unsigned or as two's complement -/
+theorem fits_cases (n : Nat) (s : Bool) (v : Int) (hf : fits n s v = true) :
+    ∃ u : Nat, u < 2 ^ (8 * n) ∧ (v % ((2 ^ (8 * n) : Nat) : Int)).toNat = u ∧
+      (if s = true ∧ 2 ^ (8 * n) ≤ 2 * u then (u : Int) - ((2 ^ (8 * n) : Nat) : Int) else (u : Int)) = v := by
+  unfold fits at hf
+  generalize 2 ^ (8 * n) = P at *
+  cases s with
+  | false =>
+    simp only [Bool.false_eq_true, if_false, decide_eq_true_eq] at hf
+    refine ⟨v.toNat, by omega, emod_nonneg _ _ hf.1 hf.2, ?_⟩
+    simp; omega
+  | true =>
+    simp only [if_true, decide_eq_true_eq] at hf
+    by_cases hv : 0 ≤ v
+    · refine ⟨v.toNat, by omega, emod_nonneg _ _ hv (by omega), ?_⟩
+      rw [if_neg (by omega)]; omega
+    · refine ⟨(v + P).toNat, by omega, emod_neg _ _ (by omega) (by omega), ?_⟩
+      rw [if_pos ⟨rfl, by omega⟩]; omega
+
+theorem enc_dec (e : Endian) (n : Nat) (s : Bool) (v : Int) (h : fits n s v = true) :
+    ∃ bs, encodeInt e n s v = some bs ∧ bs.length = n ∧ decodeInt e s bs = v := by
+  obtain ⟨u, hlt, hu, hv⟩ := fits_cases n s v h
+  refine ⟨_, encodeInt_of e n s v u h hu, ?_, ?_⟩
+  · rw [view_length, toLE_length]
+  · simp only [decodeInt, decodeNat_eq, view_view, view_length, toLE_length]
+    rw [fromLE_toLE _ _ (by rw [← pow8]; exact hlt)]
+    exact hv
+
+theorem dec_enc (e : Endian) (s : Bool) (bs : Bytes) :
+    encodeInt e bs.length (decide (decodeInt e s bs < 0)) (decodeInt e s bs) = some bs := by
+  have hlt := decodeNat_lt e bs
+  have hbs : view e (toLE bs.length (decodeNat e bs)) = bs := by
+    rw [decodeNat_eq]
+    have := toLE_fromLE (view e bs)
+    rw [view_length] at this
+    rw [this, view_view]
+  unfold decodeInt
+  simp only []
+  generalize hP : 2 ^ (8 * bs.length) = P at *
+  generalize hu : decodeNat e bs = u at *
+  split
+  · rename_i hc
+    have hneg : decide ((u : Int) - (P : Int) < 0) = true := by simp; omega
+    rw [hneg]
+    have := encodeInt_of e bs.length true ((u : Int) - (P : Int)) u
+      (by simp only [fits, if_true, hP, decide_eq_true_eq]; omega)
+      (by rw [hP, emod_neg _ _ (by omega) (by omega)]; simp)
+    rw [this, hbs]
+  · have hneg : decide ((u : Int) < 0) = false := by simp
+    rw [hneg]
+    have := encodeInt_of e bs.length false (u : Int) u
+      (by simp only [fits, Bool.false_eq_true, if_false, hP, decide_eq_true_eq]; omega)
+      (by rw [hP, emod_nonneg _ _ (by omega) (by omega)]; simp)
+    rw [this, hbs]
+
+/-! ### pack / unpack / swap -/
+
+theorem pack_some (v : Int) (n : Nat) (e : Endian) (hn : 0 < n) :
+    pack v (some (8 * n)) e = encodeInt e n (decide (v < 0)) v := by
+  obtain ⟨k, rfl⟩ : ∃ k, n = k + 1 := ⟨n - 1, by omega⟩
+  have h8 : 8 * (k + 1) = (8 * k + 7) + 1 := by omega
+  rw [h8]
+  simp only [pack]
+  congr 1
+  omega
+
+theorem unpack_some_eq (bs : Bytes) (n : Nat) (e : Endian) (s : Bool) (hl : bs.length = n) :
+    unpack bs (some (8 * n)) e s = some (decodeInt e s bs) := by
+  simp only [unpack]
+  rw [if_neg]
+  omega
+
+theorem unpack_some_ne (bs : Bytes) (n : Nat) (e : Endian) (s : Bool) (hn : 0 < n) (hl : bs.length ≠ n) :
+    unpack bs (some (8 * n)) e s = none := by
+  simp only [unpack]
+  rw [if_pos]
+  omega
+
+theorem pack_unpack (v : Int) (n : Nat) (e : Endian) (hn : 0 < n) (h : fits n (decide (v < 0)) v = true) :
+    ∃ bs, pack v (some (8 * n)) e = some bs ∧ bs.length = n ∧ unpack bs (some (8 * n)) e (decide (v < 0)) = some v := by
+  obtain ⟨bs, h1, h2, h3⟩ := enc_dec e n _ v h
+  exact ⟨bs, by rw [pack_some _ _ _ hn, h1], h2, by rw [unpack_some_eq _ _ _ _ h2, h3]⟩
+
+theorem unpack_pack (bs : Bytes) (e : Endian) (s : Bool) (hne : bs ≠ []) :
+    ∃ v, unpack bs (some (8 * bs.length)) e s = some v ∧ pack v (some (8 * bs.length)) e = some bs := by
+  have hn : 0 < bs.length := List.length_pos_iff.mpr hne
+  exact ⟨_, unpack_some_eq _ _ _ _ rfl, by rw [pack_some _ _ _ hn, dec_enc]⟩
+
+theorem pack_is_codec (v : Int) (n : Nat) (e : Endian) (hn : 0 < n) :
+    pack v (some (8 * n)) e = encodeInt e n (decide (v < 0)) v ∧
+    (∀ bs s, bs.length = n → unpack bs (some (8 * n)) e s = some (decodeInt e s bs)) ∧
+    (∀ bs s, bs.length ≠ n → unpack bs (some (8 * n)) e s = none) :=
+  ⟨pack_some v n e hn, fun bs s h => unpack_some_eq bs n e s h, fun bs s h => unpack_some_ne bs n e s hn h⟩
+
+theorem lt_two_pow_bitLength (m : Nat) : m < 2 ^ bitLength m := by
+  unfold bitLength
+  split
+  · subst_vars; simp
+  · exact Nat.lt_log2_self
+
+theorem pack_auto (v : Int) (e : Endian) (hv : 0 ≤ v) :
+    ∃ bs, pack v none e = some bs ∧ unpack bs none e false = some v := by
+  have hneg : decide (v < 0) = false := by simp; omega
+  have hfit : fits ((bitLength v.natAbs + 7) / 8) false v = true := by
+    simp only [fits, Bool.false_eq_true, if_false, decide_eq_true_eq]
+    refine ⟨hv, ?_⟩
+    have h1 := lt_two_pow_bitLength v.natAbs
+    have h2 : 2 ^ bitLength v.natAbs ≤ 2 ^ (8 * ((bitLength v.natAbs + 7) / 8)) :=
+      Nat.pow_le_pow_right (by decide) (by omega)
+    generalize 2 ^ (8 * ((bitLength v.natAbs + 7) / 8)) = P at *
+    generalize 2 ^ bitLength v.natAbs = Q at *
+    omega
+  obtain ⟨bs, h1, _, h3⟩ := enc_dec e _ false v hfit
+  refine ⟨bs, ?_, ?_⟩
+  · simp only [pack, hneg]; exact h1
+  · simp only [unpack, h3]
+
+theorem swap_eq (v : Int) (n : Nat) (hn : 0 < n) (h0 : 0 ≤ v) (h1 : v < 2 ^ (8 * n)) :
+    swap v (8 * n) = some ((fromLE (toLE n v.toNat).reverse : Nat) : Int) := by
+  have hneg : decide (v < 0) = false := by simp; omega
+  have hP : ((2 ^ (8 * n) : Nat) : Int) = (2 : Int) ^ (8 * n) := by simp
+  have hfit : fits n false v = true := by
+    simp only [fits, Bool.false_eq_true, if_false, decide_eq_true_eq, hP]; exact ⟨h0, h1⟩
+  have henc := encodeInt_of .big n false v v.toNat hfit (emod_nonneg _ _ h0 (by rw [hP]; exact h1))
+  simp only [swap, pack_some _ _ _ hn, hneg, henc]
+  rw [unpack_some_eq _ _ _ _ (by rw [view_length, toLE_length])]
+  simp [decodeInt, decodeNat, view]
+
+theorem swap_involution (v : Int) (n : Nat) (hn : 0 < n) (h0 : 0 ≤ v) (h1 : v < 2 ^ (8 * n)) :
+    ∃ w, swap v (8 * n) = some w ∧ 0 ≤ w ∧ w < 2 ^ (8 * n) ∧ swap w (8 * n) = some v := by
+  have hlen : ((toLE n v.toNat).reverse).length = n := by simp [toLE_length]
+  have hlt := fromLE_lt (toLE n v.toNat).reverse
+  rw [hlen, ← pow8] at hlt
+  have hlt' : ((fromLE (toLE n v.toNat).reverse : Nat) : Int) < 2 ^ (8 * n) := by
+    have : ((2 ^ (8 * n) : Nat) : Int) = (2 : Int) ^ (8 * n) := by simp
+    rw [← this]; exact Int.ofNat_lt.mpr hlt
+  refine ⟨_, swap_eq v n hn h0 h1, Int.natCast_nonneg _, hlt', ?_⟩
+  rw [swap_eq _ n hn (Int.natCast_nonneg _) hlt', Int.toNat_natCast]
+  have := toLE_fromLE (toLE n v.toNat).reverse
+  rw [hlen] at this
+  rw [this, List.reverse_reverse, fromLE_toLE]
+  · simp; omega
+  · rw [← pow8]
+    have : ((2 ^ (8 * n) : Nat) : Int) = (2 : Int) ^ (8 * n) := by simp
+    rw [← this] at h1; omega
+
 end Cstruct.Hexdump.C19.Lemmas
